@@ -33,6 +33,10 @@ def run(ctx):
         if dup:
             k = next(iter(dup)); vf.violation(ctx, f'{k} repeats: {dup[k][0]} (calls #{dup[k][1]} and #{dup[k][2]})', {'mode': ' '.join(args), 'config': cfg, 'kind': k, 'value': str(dup[k][0])})
         if len(ctx.samples) < 4 and vals: ctx.samples.append({k: v[0] for k, v in list(vals.items())[:6]})
+    # instances created by DIFFERENT threads, each used alone (identical call sequences) or first used by several threads at once
+    import conc
+    conc.burst(ctx, 6, 1, 12 if ctx.quick() else 120, what=' (identical call sequences on every instance)')
+    conc.burst(ctx, 4 if ctx.quick() else 12, 4, 6 if ctx.quick() else 30)
     # the metadata key must differ from the secret handed to the caller, whatever the authentication data
     import demcheck
     d = demcheck.Demd(); same = []
